@@ -67,20 +67,25 @@ theorem keyPlain_head {c : Char} {t : Str} (h : keyPlain (c :: t) = true) :
   · obtain ⟨_, _, h3, h4, h5, h6, h7, h8, _⟩ := key_plain_char (keyPlain_cons_ne h hd).1
     exact ⟨h3, h4, h5, h7, h6, h8⟩
 
-theorem parseUnquoted_keyPlain {s rest : Str} (hr : RestOk rest) (hne : s ≠ []) (hp : keyPlain s = true)
-    (hw : surroundingWs s = false) : parseUnquoted true (s ++ rest) = .seg .unq s rest := by
+theorem parseUnquoted_keyPlain' {e : Bool} {s term w rest' : Str} (hr : UQEnd e term w rest') (hne : s ≠ [])
+    (hp : keyPlain s = true) (hw : surroundingWs s = false) :
+    parseUnquoted true e (s ++ term) = .seg .unq s rest' := by
   cases s with
   | nil => exact absurd rfl hne
   | cons c t =>
     have hh := keyPlain_head hp
     unfold parseUnquoted
     simp only [List.cons_append, startsWith_dots _ hh.2.2.2.1, Bool.false_eq_true, if_false]
-    have := scanUQ_keyPlain hr (c :: t) [] hp
+    have := scanUQ_keyPlain' hr (c :: t) [] hp
     simp only [List.cons_append] at this
     rw [this]
     simp only [List.append_nil]
-    rw [sw_trim hne hw]
+    rw [sw_trim' hne hw w hr.spaces]
     simp
+
+theorem parseUnquoted_keyPlain {e : Bool} {s rest : Str} (hr : RestOk rest) (hne : s ≠ []) (hp : keyPlain s = true)
+    (hw : surroundingWs s = false) : parseUnquoted true e (s ++ rest) = .seg .unq s rest :=
+  parseUnquoted_keyPlain' (uqEnd_restOk hr) hne hp hw
 
 /-- the shape of a formatted segment that `parseKey` needs: its first rune -/
 def GoodHead (text : Str) : Prop := ∃ c X, text = c :: X ∧ isSpace c = false ∧ c ≠ '(' ∧ c ≠ '.'
@@ -89,10 +94,10 @@ theorem quote_chars : isSpace '"' = false ∧ isSpace '\'' = false := by decide
 
 /-- key segment round trip at the level of `parseString`, for any continuation `rest` that is empty or
     starts the next segment.  `hnull`/`hkw` are the two spots where d2 folds case. -/
-theorem parseString_fmtKey {s rest : Str} (hr : RestOk rest)
+theorem parseString_fmtKey {e : Bool} {s rest : Str} (hr : RestOk rest)
     (hnull : equalFold s "null" = true → s = "null".toList ∨ uqFoldLiteral = none)
     (hkw : rawString s true = .unq → kwCase s = false) :
-    ∃ k, parseString true (fmtKey s ++ rest) = .seg k s rest ∧ (k = .unq → s.head? ≠ some '@') ∧ GoodHead (fmtKey s) := by
+    ∃ k, parseString true e (fmtKey s ++ rest) = .seg k s rest ∧ (k = .unq → s.head? ≠ some '@') ∧ GoodHead (fmtKey s) := by
   have hraw := rawString_key s
   unfold fmtKey
   generalize hq : rawString s true = q at hraw hkw
@@ -176,7 +181,7 @@ theorem parseString_fmtKey {s rest : Str} (hr : RestOk rest)
         simp only [List.cons_append]
         rw [skipSpacesNL_cons _ hsp]
         simp only [beq_iff_eq, hh.1, hh.2.1, hh.2.2.1, if_false]
-        have := parseUnquoted_keyPlain hr hne hp hw
+        have := parseUnquoted_keyPlain (e := e) hr hne hp hw
         simpa using this
       · intro _
         simp [hh.2.2.2.2.2]
@@ -304,13 +309,13 @@ theorem parseValue_fmtValue (isNum : Str → Bool) {s : Str}
       · rfl
     obtain ⟨k, hk, hkeep⟩ := classify_keeps isNum (hfold rfl) ⟨hq1, hq2, hq3⟩
     refine ⟨k, ?_, hkeep⟩
-    have hpu : parseUnquoted false (c :: t) = .seg .unq (c :: t) [] := by
+    have hpu : parseUnquoted false false (c :: t) = .seg .unq (c :: t) [] := by
       unfold parseUnquoted
       rw [startsWith_dots_value hspec, scanUQ_valuePlain _ _ hspec]
       simp only [Bool.false_eq_true, if_false, List.append_nil]
       rw [sw_trim hne hw]
       simp
-    have hps : parseString false (c :: t) = .seg .unq (c :: t) [] := by
+    have hps : parseString false false (c :: t) = .seg .unq (c :: t) [] := by
       unfold parseString
       rw [skipSpacesNL_cons _ hsp]
       simp only [beq_iff_eq, hh.1, hh.2.1, hh.2.2.1, if_false]
